@@ -26,6 +26,8 @@ type MTx struct {
 	// transactions the multisig really sent (loop checks): the items of a multisend, the members of an edit-multisig
 	Items   []MItem   `json:"items,omitempty"`
 	Members []MMember `json:"members,omitempty"`
+	// Failed: the transaction is in the block but failed (code != 0); the node lists it only when asked for failed ones
+	Failed bool `json:"failed,omitempty"`
 }
 
 type MItem struct {
@@ -51,8 +53,10 @@ type MBlock struct {
 	Txs []MTx `json:"txs"`
 }
 
-// IsEvent: is this a bridge event (what the connector must number)?
-func (t MTx) IsEvent() bool { return t.Kind == "deposit" || t.Kind == "batch" || t.Kind == "valset" }
+// IsEvent: is this a bridge event (what the connector must number)? A failed transaction never is.
+func (t MTx) IsEvent() bool {
+	return !t.Failed && (t.Kind == "deposit" || t.Kind == "batch" || t.Kind == "valset")
+}
 
 // Sender is the n-th Minter account used as a depositor.
 func Sender(n int) string {
@@ -167,8 +171,16 @@ func (n *Node) ServeHTTP(w http.ResponseWriter, r *http.Request) {
 		var out []interface{}
 		for h := from; h <= to && h <= n.Latest && h >= 1 && int(h) <= len(n.Blocks); h++ {
 			var txs []interface{}
+			withFailed := r.URL.Query().Get("failed_txs") == "true"
 			for i, t := range n.Blocks[h-1].Txs {
-				txs = append(txs, n.txJSON(h, i, t))
+				if t.Failed && !withFailed {
+					continue
+				}
+				j := n.txJSON(h, i, t)
+				if t.Failed {
+					j["code"], j["log"] = "107", "failed"
+				}
+				txs = append(txs, j)
 			}
 			out = append(out, map[string]interface{}{"height": fmt.Sprint(h), "hash": "00", "time": "2021-01-01T00:00:00Z", "transaction_count": fmt.Sprint(len(txs)),
 				"transactions": txs, "block_reward": "0", "size": "1", "proposer": "Mp00", "validators": []interface{}{}, "evidence": map[string]interface{}{"evidence": []interface{}{}}, "missed": []string{}, "events": []interface{}{}, "code": "0"})
